@@ -71,6 +71,11 @@ func (e *jsonEncoder) Encode(s core.Sample) error {
 
 func (e *jsonEncoder) Flush() error {
 	err := e.Stream.Flush()
-	_ = e.buf.Flush()
+	// The stream only hands its data to buf; the write to the sink happens here, and its failure
+	// (or short count) means lost lines.
+	bufErr := e.buf.Flush()
+	if err == nil {
+		err = bufErr
+	}
 	return err
 }
